@@ -267,6 +267,11 @@ type c09Sim struct {
 
 	// hook, when set, is called with the message of every debug record.
 	hook func(msg string)
+
+	// countHook, when set, is called from inside Config.ShouldCountClient
+	// (dataFromUnits calls it while GET /control/stats builds the top clients,
+	// after the units were loaded and before the counters are summed).
+	countHook atomic.Pointer[func()]
 }
 
 func (m *c09Sim) fail(bit int, f string, a ...any) {
@@ -313,7 +318,12 @@ func (m *c09Sim) conf(ms int64, en bool) Config {
 		Logger:            slog.New(c09LogHandler{m}),
 		UnitID:            func() uint32 { return m.hour.Load() },
 		ConfigModified:    func() {},
-		ShouldCountClient: func([]string) bool { return true },
+		ShouldCountClient: func([]string) bool {
+			if h := m.countHook.Load(); h != nil {
+				(*h)()
+			}
+			return true
+		},
 		HTTPRegister: func(method, url string, h http.HandlerFunc) {
 			m.routes[method+" "+url] = h
 		},
@@ -1246,6 +1256,10 @@ func TestVerifC09(t *testing.T) {
 		id0, ms, en, ops := c09GenHistory(rr, steps)
 		c09RunHistory(t, out, fmt.Sprintf("random %d", i), id0, ms, en, ops)
 	}
+
+	// Schedules: GET /control/stats racing with updates, clean shutdown racing
+	// with the hourly flush and updates (zz_verif_C09conc_test.go).
+	c09Schedules(t, out, r)
 
 	if out.Thorough() {
 		c09Concurrent(t, out)
